@@ -36,6 +36,8 @@ TABLE = {
   ('C03_root_gok', 'CollObsP', 'coll_root_spec'), ('C03_rebase_gok', 'CollObsP', 'coll_rebase_spec'),
   ('C03_intra_gok', 'CollObsP', 'coll_intra_spec_gok'),
   ('C03_inv', 'Refine', 'step_refines'),
+  ('C03_hash_invisible', 'InvisibleP', 'hash_invisible'), ('C03_silent_ops_invisible', 'InvisibleP', 'silent_ops_invisible'),
+  ('C03_invisible_example', 'InvisibleP', 'invisible_u64'),
  ],
  'C04': [
   ('C04_spec_frame', 'FinalP', 'spec_frame'), ('C04_versions_isolated', 'FinalP', 'versions_isolated'), ('C04_versions_isolated_obs', 'FinalP', 'versions_isolated_obs'),
@@ -63,6 +65,7 @@ TABLE = {
   ('C07_state', 'RebaseP', 'rebase_state'), ('C07_coll', 'RebaseP', 'coll_rebase_on_hinv'),
   ('C07_coll_demonic', 'RebaseP', 'coll_rebase_on_dem'), ('C07_gok', 'CollObsP', 'coll_rebase_spec'),
   ('C07_hash_inj', 'HashP', 'shash_canon_inj'), ('C07_refines', 'RefineB', 'refines_ORebaseOn'), ('C07_refines_rebase', 'RefineB', 'refines_ORebase'),
+  ('C07_rebase_invisible', 'InvisibleP', 'rebase_invisible'), ('C07_silent_ops_invisible', 'InvisibleP', 'silent_ops_invisible'),
  ],
  'C08': [
   ('C08_paths_cf', 'FinalP', 'rebase_sharing_paths_cf'), ('C08_paths_vec_cf', 'FinalP', 'rebase_sharing_paths_vec_cf'), ('C08_coll_paths_cf', 'FinalP', 'sharing_paths_cf'), ('C08_sharing_cf', 'FinalP', 'rebase_sharing_cf'), ('C08_equal_share_all', 'FinalP', 'sharing_equal'), ('C08_fresh_on_differing_paths', 'FinalP', 'fresh_differs'),
@@ -75,6 +78,7 @@ TABLE = {
   ('C09_coll_memo', 'IntraP', 'coll_intra_spec_memo'), ('C09_pinned_refuted', 'IntraP', 'intra_pinned_refuted'),
   ('C09_pinned_not_shape_preserving', 'IntraP', 'intra_pinned_not_shape_preserving'),
   ('C09_fixed_on_witness', 'IntraP', 'intra_fixed_on_witness'), ('C09_gok', 'CollObsP', 'coll_intra_spec_gok'), ('C09_refines', 'RefineB', 'refines_OIntra'),
+  ('C09_intra_is_flush', 'InvisibleP', 'intra_is_flush'), ('C09_silent_ops_invisible', 'InvisibleP', 'silent_ops_invisible'),
  ],
  'C10': [
   ('C10_rehash_only_new', 'FinalP', 'rehash_only_new'), ('C10_rehash_recomputed', 'FinalP', 'rehash_recomputed'), ('C10_flush_then_hash', 'FinalP', 'flush_rehash_only_new'),
